@@ -150,6 +150,12 @@ structure CondReq where
   inm : Option Str := none
   im : Option Str := none
 
+/-- `modified_since and last_modified and last_modified <= modified_since` on epoch seconds -/
+def dateUnmodified (since lm : Option Int) : Bool :=
+  match since, lm with
+  | some ms, some l => decide (l ≤ ms)
+  | _, _ => false
+
 /-- `is_resource_modified(...)`. `etag` is the response's ETag header value (still quoted),
 `lastModified` the response's instant as (epoch seconds, microseconds): the microseconds are
 dropped (`replace(microsecond=0)`). -/
@@ -162,10 +168,7 @@ def isResourceModified (r : CondReq) (etag : Option Str) (lastModified : Option 
     match ifr with
     | some (.date d) => some d
     | _ => r.ims
-  let u0 : Bool :=
-    match modifiedSince, lm with
-    | some ms, some l => decide (l ≤ ms)
-    | _, _ => false
+  let u0 : Bool := dateUnmodified modifiedSince lm
   let unmodified : Bool :=
     match etag with
     | none => u0
@@ -191,10 +194,8 @@ def digitsVal (ds : Str) : Nat := ds.foldl (fun n c => 10 * n + (c.toNat - 48)) 
 /-- `_plain_int(value)`; `none` = ValueError -/
 def plainInt (s : Str) : Option Int :=
   let s := Py.strip s
-  let (neg, ds) : Bool × Str :=
-    match s with
-    | '-' :: t => (true, t)
-    | _ => (false, s)
+  let neg : Bool := s.head? == some '-'
+  let ds : Str := if neg then s.drop 1 else s
   if ds.isEmpty || !ds.all isDigitA then none
   else some (if neg then -(digitsVal ds : Int) else (digitsVal ds : Int))
 
@@ -270,10 +271,14 @@ def rangeForLength (r : Range) (length : Option Int) : Option (Int × Int) :=
   | some l, [(start, end_)] =>
     if r.units != bytesUnit then none
     else
-      let (s, e) : Int × Int :=
+      let s : Int :=
         match end_ with
-        | some e => (start, e)
-        | none => (if start < 0 then start + l else start, l)
+        | some _ => start
+        | none => if start < 0 then start + l else start
+      let e : Int :=
+        match end_ with
+        | some e => e
+        | none => l
       if isByteRangeValid (some s) (some e) (some l) then some (s, min e l) else none
   | _, _ => none
 
@@ -391,7 +396,7 @@ def respond (method : Str) (q : CondReq) (r : RespIn) (completeLength : Option I
   let total : Int := (chunks.flatten.length : Nat)
   match makeConditionalStatus method q r completeLength acceptRanges with
   | none => none
-  | some (206, .partialContent a b) =>
+  | some (_, .partialContent a b) =>
     let start := a.toNat
     let len := (b - a).toNat
     let body :=
@@ -399,10 +404,11 @@ def respond (method : Str) (q : CondReq) (r : RespIn) (completeLength : Option I
       | some bs => rangeWrapSeek chunks.flatten bs start len
       | none => rangeWrapIter chunks start len
     some ⟨206, some (a, b - 1, completeLength.getD 0), some (b - a), if isHead then [] else body⟩
-  | some (304, _) => some ⟨304, none, none, []⟩
   | some (st, _) =>
-    let isGetHead := method == ['G', 'E', 'T'] || isHead
-    some ⟨st, none, if kind == 0 || (kind == 1 && isGetHead) then some total else none,
-      if isHead then [] else chunks.filter (!·.isEmpty)⟩
+    if st == 304 then some ⟨304, none, none, []⟩
+    else
+      let isGetHead := method == ['G', 'E', 'T'] || isHead
+      some ⟨st, none, if kind == 0 || (kind == 1 && isGetHead) then some total else none,
+        if isHead then [] else chunks.filter (!·.isEmpty)⟩
 
 end Wz.Cond
